@@ -6,7 +6,10 @@ import (
 	"fmt"
 	"io/fs"
 	"strings"
+	"syscall"
 	"time"
+
+	"github.com/whawty/auth/zzverif/simfs"
 
 	ber "github.com/go-asn1-ber/asn1-ber"
 	"github.com/whawty/auth/zzverif/simexec"
@@ -180,6 +183,9 @@ func genCall(r *Run, agent int, users []string, model map[string]*AUser, vias []
 }
 
 func wedgeSignature(desc string) string {
+	if !strings.Contains(desc, "is NOT back at its select") {
+		return "wedge/requests-unanswered" // every dispatcher is idle, yet calls are pending
+	}
 	for _, l := range strings.Split(desc, "\n") {
 		if strings.Contains(l, "dispatchRequests") && strings.Contains(l, "[chan") {
 			for _, x := range strings.Fields(strings.TrimSpace(l)) {
@@ -250,6 +256,22 @@ func propC10(r *Run) {
 			}
 			ncalls += n
 			w.addClient(plan)
+		}
+		// swarm: in a quarter of the runs a few file-system operations fail (full disk, I/O error,
+		// descriptor exhaustion); requests may then fail, but every one must still be answered
+		if r.Choose("disk-faults", 4) == 0 {
+			nf := 1 + r.Choose("ndisk-faults", 3)
+			at := map[int]syscall.Errno{}
+			for i := 0; i < nf; i++ {
+				at[w.fs.NOps+r.Choose("disk-fault-at", 400)] = []syscall.Errno{syscall.EIO, syscall.ENOSPC, syscall.EMFILE, syscall.EACCES}[r.Choose("disk-errno", 4)]
+			}
+			w.fs.Plan = func(seq int, kind, real string) *simfs.Fault {
+				if e, ok := at[seq]; ok && kind != "close" {
+					r.Count("fault:disk-" + e.Error())
+					return &simfs.Fault{Errno: e}
+				}
+				return nil
+			}
 		}
 		// dispatcher slowness: how reluctant the scheduler is to let the service loops run
 		slow := []int{1, 1, 3, 10, 40}[r.Choose("dispatcher-slowness", 5)]
